@@ -1,6 +1,7 @@
 import Ecal.Model.Prims
 import Ecal.Model.Eval
 import Ecal.Gen.C06
+import Ecal.Lemmas.C06NoPanic
 /-!
 C06 — no ECAL program, sink attribute or event can crash the host process.
 
@@ -399,7 +400,7 @@ theorem witness_statematch_unguarded : isPanic (stateKeySiteUnguarded [] (.list 
 theorem witness_sinkattr_unguarded : isPanic (sinkAttrSiteUnguarded .num (.str "x" none)) = true := by decide
 
 /-! ### the evaluator -/
-open Ecal.Ev
+open Ecal.Ev Ecal.Lemmas.C06
 
 /-- An `err` outcome of the try body reaches the except dispatch: whatever the body did to the state,
     when it ends with a runtime error (`Sig.err`, not one of the three control signals) or with a plain
@@ -417,6 +418,34 @@ theorem error_in_try_catchable (body : M Val) (handlers : List Handler) (oth : O
 /-- non-vacuity: a division by … a non-number inside try, bare except: the handler runs -/
 example : ∃ s', (tryCore (throw (Sig.err ⟨"Operand is not a number", 1, 1⟩ none))
       [fun _ => pure (some (Val.num 7))] none).run.run {} = (.ok (Val.num 7), s') := ⟨_, rfl⟩
+
+/-- The evaluator model never yields `panic` — PARTIAL.
+
+    Full statement (kept visible): for every well-formed tree `n` (every node has a token, no nil
+    child, operators have their operand count, `if` has guard/block pairs, `loop` has two children,
+    `try` … as C07's `WellFormed`), every scope `sc`, every state `s` whose function table and
+    interpolation table hold well-formed trees and whose function values are valid, and every fuel `f`:
+    `(eval f sc n).run.run s ≠ (.error Sig.panic, _)`.
+
+    Proved here: exactly that, for the sub-language `Frag` (`Ecal/Lemmas/C06NoPanic.lean`): the literals
+    `number true false null` and raw string literals, unary and binary `plus minus`, `times div divint`,
+    `modint` (the repaired zero-divisor site), `and or not`, and `guard` nodes, nested to any depth — over
+    ANY state and scope (no hypothesis on the heap) and any fuel. These are the constructs whose Go code
+    asserts operand kinds and divides integers.
+    Missing: identifiers / assignment / access paths, list and map literals, `== != in notin`, function
+    declarations and calls (the argument checks of the builtins are covered by `builtin_total` on the
+    Prims model instead), statements / `if` / loops / `try` (their control skeleton: `error_in_try_catchable`
+    and the C04 theorems about the combinators), interpolating strings, and the comparison / string
+    operators. The last two stringify values: that is where the known finding
+    `cyclic-container-stringify` lives; the Lean model cannot panic there (its printer is fuel-bounded),
+    the Go code overflows its stack, so the full statement about the CODE needs the hypothesis "no
+    container that (transitively) contains itself reaches fmt.Sprint / log / `%#v`" — see SPEC["assumptions"]. -/
+theorem eval_never_panics_partial (f sc : Nat) (n : Ecal.Parse.Node) (hn : Frag n) (s : St) :
+    ((eval f sc n).run.run s).1 ≠ .error Sig.panic :=
+  eval_frag_no_panic f sc n hn s
+
+/-- non-vacuity: a tree of the fragment (the operands of `%` are ill-typed / zero all the same) -/
+example : Frag fragExample := fragExample_ok
 
 /-! ### census -/
 
